@@ -218,7 +218,7 @@ pub struct HState {
     i: Option<i64>,
 }
 
-#[derive(Clone, Debug, PartialEq, Eq, Serialize, Deserialize)]
+#[derive(Clone, Debug, PartialEq, Eq, PartialOrd, Ord, Serialize, Deserialize)]
 pub enum HOp {
     Insert { list: usize, name: String, val: usize },
     SetI(Option<i64>),
@@ -372,18 +372,32 @@ fn histories(run: &Run, tier: Tier, lists: &[(Ty, ListKind)]) -> (u64, u64) {
         let mut p = Vec::new();
         seen.insert(hobserve(&w, &ctx, &init, &mut p));
     }
-    let mut frontier = vec![init];
+    // a state is reached by a real history: the context of a frontier state is obtained by
+    // replaying that history on one live context from the initial state (not by constructing a
+    // context that merely looks like the state), so that anything a step leaves behind inside the
+    // context is still there when the next step runs
+    let mut frontier: Vec<(HState, Vec<HOp>)> = vec![(init.clone(), vec![])];
     let (mut states, mut transitions) = (1u64, 0u64);
     for _depth in 1..=max_depth {
-        let out: Mutex<Vec<(HState, String)>> = Mutex::new(Vec::new());
+        let out: Mutex<Vec<((HState, Vec<HOp>), String)>> = Mutex::new(Vec::new());
         let fr = &frontier;
         par_for(fr.len(), ncpu(), |fi| {
             let mut local = Vec::new();
             for op in &ops {
-                let mut st = fr[fi].clone();
+                let mut st = fr[fi].0.clone();
                 let r = guarded(|| {
-                    let ctx = build_hctx(&w, &fr[fi]);
                     let mut problems = Vec::new();
+                    let mut ctx = build_hctx(&w, &init);
+                    let mut replayed = init.clone();
+                    for past in &fr[fi].1 {
+                        match hstep(&w, ctx, &mut replayed, past) {
+                            Ok(c) => ctx = c,
+                            Err(e) => {
+                                problems.push(format!("replaying {past:?}: {e}"));
+                                return (problems, String::new());
+                            }
+                        }
+                    }
                     match hstep(&w, ctx, &mut st, op) {
                         Err(e) => {
                             problems.push(e);
@@ -398,19 +412,21 @@ fn histories(run: &Run, tier: Tier, lists: &[(Ty, ListKind)]) -> (u64, u64) {
                 match r {
                     Err(p) => run.violation(
                         format!("{ID}:history-panic:{tag}:{op:?}"),
-                        format!("[{tag}] from {:?}: {op:?} panicked: {p}", fr[fi]),
-                        json!({"kind": "c17-step", "universe": tag, "state": fr[fi], "op": op}),
+                        format!("[{tag}] after {:?} (state {:?}): {op:?} panicked: {p}", fr[fi].1, fr[fi].0),
+                        json!({"kind": "c17-step", "universe": tag, "state": fr[fi].0, "history": fr[fi].1, "op": op}),
                     ),
                     Ok((problems, key)) => {
                         for p in &problems {
                             run.violation(
                                 format!("{ID}:history:{tag}:{op:?}:{p}"),
-                                format!("[{tag}] from state {:?}: {op:?}: {p}", fr[fi]),
-                                json!({"kind": "c17-step", "universe": tag, "state": fr[fi], "op": op}),
+                                format!("[{tag}] after {:?} (state {:?}): {op:?}: {p}", fr[fi].1, fr[fi].0),
+                                json!({"kind": "c17-step", "universe": tag, "state": fr[fi].0, "history": fr[fi].1, "op": op}),
                             );
                         }
                         if problems.is_empty() {
-                            local.push((st, key));
+                            let mut path = fr[fi].1.clone();
+                            path.push(op.clone());
+                            local.push(((st, path), key));
                         }
                     }
                 }
